@@ -301,6 +301,10 @@ Section Coherence.
       unfold find_comp. cbn. apply find_del_other. exact Hs.
     - (* Query *) injection Hm as <- <- <-. exact Hq.
     - (* MutateResult *) injection Hm as <- <- <-. exact Hq.
+    - (* MutateArg *) injection Hm as <- <- <-. exact Hq.
+    - (* LiveWrite *) discriminate.
+    - (* LiveVarWrite *) discriminate.
+    - (* Invalidate *) injection Hm as <- <- <-. exact Hq.
   Qed.
 
   (* ================================================================== F. coherence of the cache *)
@@ -457,6 +461,89 @@ Section Coherence.
       + rewrite lookup_set_key, String.eqb_refl. split; reflexivity.
       + rewrite L, Q. split; reflexivity.
       + rewrite L, Q. split; reflexivity.
+  Qed.
+  (* ================================================================== I. live references under the discipline *)
+  Lemma comp_op_action d s n e d' a ob : comp_op d s n e = (d', a, ob) -> a = ANone \/ a = AInval s n.
+  Proof.
+    unfold comp_op. destruct (find_comp d s n); [destruct (e j)|]; intros H; injection H as <- <- <-; auto.
+  Qed.
+
+  (* write through a live reference, then invalidate_cache_for_component: together they keep the cache coherent *)
+  Lemma live_pair_coherent st s n r x : route_ok r = true -> coherent st ->
+    coherent (fst (step mt dflt (fst (step mt dflt st (LiveWrite s n r x))) (Invalidate s n))).
+  Proof.
+    intros Hr Hc. destruct st as [d c]. cbn.
+    destruct (comp_op d s n (set_route r x)) as [[d' a] ob] eqn:Hm. cbn.
+    intros kv Hin. cbn in Hin. apply filter_In in Hin as [Hin Hs].
+    destruct (Hc kv Hin) as (p & s' & n' & Hk & Hp & Hq). cbn in Hq.
+    exists p, s', n'. cbn. repeat split; try assumption.
+    rewrite <- Hq. eapply comp_op_keeps; [|exact Hm|].
+    - intros c0 c0' Hc0 E. erewrite set_route_id; eassumption.
+    - rewrite <- Hk. destruct (comp_op_action _ _ _ _ _ _ _ Hm) as [-> | ->]; [reflexivity|exact Hs].
+  Qed.
+
+  Lemma ok_hist_cons o r : (forall s n rt x, o <> LiveWrite s n rt x) -> ok_hist (o :: r) = op_ok o && ok_hist r.
+  Proof. intros H. destruct o; try reflexivity. exfalso. exact (H _ _ _ _ eq_refl). Qed.
+
+  Lemma run_coherent_ok k : forall ops st, length ops <= k -> ok_hist ops = true -> coherent st ->
+    coherent (fst (run mt dflt st ops)).
+  Proof.
+    induction k as [|k IH]; intros ops st Hl Hok Hc.
+    - destruct ops; [exact Hc|cbn in Hl; lia].
+    - destruct ops as [|o r]; [exact Hc|]. cbn in Hl.
+      assert (G : (forall s n rt x, o <> LiveWrite s n rt x) -> coherent (fst (run mt dflt st (o :: r)))).
+      { intros Hn. rewrite (ok_hist_cons o r Hn) in Hok. apply andb_true_iff in Hok as [H1 H2].
+        pose proof (step_coherent st o H1 Hc) as Hc1. cbn.
+        destruct (step mt dflt st o) as [st1 ob]. cbn in Hc1.
+        assert (Hl' : length r <= k) by lia.
+        pose proof (IH r st1 Hl' H2 Hc1) as Hc2.
+        destruct (run mt dflt st1 r) as [st2 obs]. exact Hc2. }
+      destruct o; try (apply G; intros; discriminate).
+      (* LiveWrite: the next operation is the invalidation *)
+      destruct r as [|o2 r']; [discriminate|].
+      destruct o2; try discriminate.
+      cbn [ok_hist] in Hok.
+      apply andb_true_iff in Hok as [Hok H4]. apply andb_true_iff in Hok as [Hok H3].
+      apply andb_true_iff in Hok as [H1 H2].
+      apply Z.eqb_eq in H2. apply String.eqb_eq in H3. subst s0 n0.
+      pose proof (live_pair_coherent st s n route x H1 Hc) as Hc1.
+      cbn [run]. destruct (step mt dflt st (LiveWrite s n route x)) as [st1 ob1]. cbn [fst] in Hc1.
+      destruct (step mt dflt st1 (Invalidate s n)) as [st2 ob2]. cbn [fst] in Hc1.
+      cbn in Hl. assert (Hl' : length r' <= k) by lia.
+      pose proof (IH r' st2 Hl' H4 Hc1) as Hc2.
+      destruct (run mt dflt st2 r') as [st3 obs]. exact Hc2.
+  Qed.
+
+  Lemma op_ok_ok_hist ops : forallb op_ok ops = true -> ok_hist ops = true.
+  Proof.
+    induction ops as [|o r IH]; [reflexivity|]. cbn [forallb]. intros H. apply andb_true_iff in H as [H1 H2].
+    destruct o; try (cbn [ok_hist]; rewrite H1, (IH H2); reflexivity). discriminate.
+  Qed.
+
+  Lemma history_fresh_ok st pre p s n post :
+    coherent st -> ok_hist pre = true -> plat_ok p = true ->
+    nth_error (snd (run mt dflt st (pre ++ Query p s n :: post)%list)) (length pre)
+    = Some (ORes (qresolve dflt (doc_after (s_doc st) pre) p s n)).
+  Proof.
+    intros Hc Hok Hp.
+    destruct (run_app pre st (Query p s n :: post)) as [_ E]. rewrite E.
+    rewrite nth_error_app2 by (rewrite run_length; lia). rewrite run_length, Nat.sub_diag.
+    pose proof (run_coherent_ok (length pre) pre st (le_n _) Hok Hc) as Hc'. pose proof (run_doc pre st) as Hd.
+    set (st' := fst (run mt dflt st pre)) in *.
+    cbn. pose proof (query_fresh st' p s n Hp Hc') as Q.
+    destruct (query dflt st' p s n) as [st1 ob]. cbn in Q.
+    destruct (run mt dflt st1 post) as [st2 obs]. cbn. rewrite Q, Hd. reflexivity.
+  Qed.
+
+  (* ================================================================== J. arguments are private copies *)
+  Lemma history_args_private st pre post s n r x :
+    fst (run mt dflt st (pre ++ MutateArg s n r x :: post)%list) = fst (run mt dflt st (pre ++ post)%list) /\
+    snd (run mt dflt st (pre ++ MutateArg s n r x :: post)%list)
+    = (snd (run mt dflt st pre) ++ ODone :: snd (run mt dflt (fst (run mt dflt st pre)) post))%list.
+  Proof.
+    destruct (run_app pre st (MutateArg s n r x :: post)) as [E1 E2].
+    destruct (run_app pre st post) as [F1 _].
+    rewrite E1, E2, F1. cbn. destruct (run mt dflt (fst (run mt dflt st pre)) post). split; reflexivity.
   Qed.
 End Coherence.
 
